@@ -1,2 +1,8 @@
-import Tumfl.Props.C11
-#print axioms Tumfl.Props.C11_roundtrip
+import Tumfl.Props.C04
+#print axioms Tumfl.Props.C12_wrong_args_stmt
+#print axioms Tumfl.Props.C12_wrong_args_expr
+#print axioms Tumfl.Props.C12_missing_stmt
+#print axioms Tumfl.Props.C12_missing_expr
+#print axioms Tumfl.Props.C12_untouched
+#print axioms Tumfl.Props.C12_errors
+#print axioms Tumfl.Props.C04_lookup_none
